@@ -307,7 +307,10 @@ static int probe_exec() {
 static int probe_publish() {
     using vh::rawload; tbb::task_arena ar(2, 2); ar.initialize(); r1::arena* a = rawload(ar.my_arena);
     static std::atomic<void*> sp; static std::atomic<int> resumed; vh::rawstore(sp, (void*)nullptr); vh::rawstore(resumed, 0);
-    int fact_resume = -1, fact_enqueue = -1;
+    int fact_resume = -1, fact_enqueue = -1, fact_clear_checked = -1;
+    // does a clear transaction RESPECT being aborted?  A publisher's test_and_set is run from inside the predicate, i.e. exactly between the transaction's
+    // busy marker and its final step: the transaction must fail and leave the flag SET (PoolState.tla: constant CLEAR_CHECKED, the final step is a CAS)
+    { r1::atomic_flag f; f.test_and_set(); bool r = f.try_clear_if([&] { f.test_and_set(); return true; }); fact_clear_checked = (!r && rawload(f.my_state) == 1) ? 1 : 0; }
     Sched S; focus_only(false); S.stall_limit = 100000000;
     S.spawn(2, [&](int id) {
         if (id == 0) { ar.execute([&] { tbb::task_group tg; tg.run([] { tbb::task::suspend([](tbb::task::suspend_point p) { sp.store(p); }); resumed.store(1); }); tg.wait(); }); return; }
@@ -323,7 +326,7 @@ static int probe_publish() {
         vh::rawstore(a->my_pool_state.my_state, (std::uintptr_t)0); a->advertise_new_work<r1::arena::wakeup>();    // clean-up: the sleeper was never the owner of a clear transaction - wake it for real
     });
     int rc = S.run_random(7, 30000000, 1); S.join_all();
-    printf("{\"resume_aborts_clear\":%d,\"enqueue_aborts_clear\":%d,\"rc\":\"%s\"}\n", fact_resume, fact_enqueue, rc_name(rc).c_str());
+    printf("{\"resume_aborts_clear\":%d,\"enqueue_aborts_clear\":%d,\"clear_checked\":%d,\"rc\":\"%s\"}\n", fact_resume, fact_enqueue, fact_clear_checked, rc_name(rc).c_str());
     return 0;
 }
 struct Stats { long paths, steps, stuck, sleeps, wakes, buffered, workers; };
